@@ -5,7 +5,6 @@ import (
 	"crypto/sha256"
 	"encoding/binary"
 	"fmt"
-	"os"
 	"sort"
 	"testing"
 
@@ -38,12 +37,8 @@ import (
 // those stay hard violations.
 const c25GapKey = "nonexist-proof-bound-to-gap-not-key"
 
-// c25Known consults the known-findings list. VERIF_C25_GAP_AS_KNOWN is a
-// calibration-only override (lets the rest of the search run before the
-// coordinator has triaged the finding).
-func c25Known(ctx *vk.Ctx) bool {
-	return ctx.Known(c25GapKey) || os.Getenv("VERIF_C25_GAP_AS_KNOWN") == "1"
-}
+// c25Known consults the known-findings list for the gap clause.
+func c25Known(ctx *vk.Ctx) bool { return ctx.Known(c25GapKey) }
 
 type c25Mut struct {
 	F string `json:"f"` // field / structural mutation
